@@ -11,6 +11,8 @@ import GitAiModel.Lemmas.Tracker
 import GitAiModel.Lemmas.TrackerRoundtrip
 import GitAiModel.Lemmas.TrackerIdentity
 import GitAiModel.Lemmas.TrackerMerge
+import GitAiModel.Lemmas.TrackerBoundaries
+import GitAiModel.Lemmas.TrackerWs
 namespace GitAi.Tracker
 open GitAi
 
@@ -65,6 +67,53 @@ example :
             ⟨.insert, [32]⟩, ⟨.delete, [101, 108, 115, 101, 13, 10]⟩]
       [] [⟨0, 1, 0, 2, 0, 1⟩] [⟨0, 16, human, 1⟩] ['A'] 1
     = .ok [⟨0, 3, ['A'], 1⟩, ⟨3, 14, human, 1⟩] := by decide
+
+/-- **C16 on_boundaries.** If every segment that contributes to the new text starts on a char
+    boundary (`SegStartsOk`: the segment contract), the prior ranges start and end on char
+    boundaries of the old text, and move targets start and end on char boundaries of their
+    insertion (`TargetsOk`: the move contract) — then every range returned by
+    `update_attributions` starts and ends on a char boundary of the new text.  No hypothesis ties
+    the bytes of a move's source to its target: they differ in the real detector's output
+    (it matches trimmed lines), which is why `clamp_into_insertion` re-aligns (DESIGN O13). -/
+theorem on_boundaries (segs : List Seg) (subst : List (Nat × Nat)) (moves : List Move)
+    (old : List Attr) (author : Str) (ts : Nat) (out : List Attr) (hok : SegStartsOk segs)
+    (hold : ∀ x ∈ old, OnB (oldOf segs) x) (htg : TargetsOk segs moves)
+    (h : update segs subst moves old author ts = .ok out) : ∀ a ∈ out, OnB (newOf segs) a := by
+  simp only [update] at h
+  split at h
+  · cases h
+  · rename_i raw hraw
+    cases h
+    apply merge_boundaries
+    refine transform_boundaries segs subst moves _ author ts raw hok ?_ htg hraw
+    intro x hx
+    simp only [normalizeOld] at hx
+    split at hx
+    · exact hold x hx
+    · exact hold x ((mem_sortBy _ _ _).1 hx)
+
+/-- non-vacuity: "é\n" deleted, "x" kept, "é\n" inserted and named as the move target -/
+example : SegStartsOk [⟨.delete, [0xC3, 0xA9, 10]⟩, ⟨.equal, [120]⟩, ⟨.insert, [0xC3, 0xA9, 10]⟩] := by
+  intro g hg hne
+  simp only [List.mem_cons, List.mem_nil_iff, or_false] at hg
+  rcases hg with rfl | rfl | rfl
+  · exact absurd rfl hne
+  · simp [headOk, isCont]
+  · simp [headOk, isCont]
+example : TargetsOk [⟨.delete, [0xC3, 0xA9, 10]⟩, ⟨.equal, [120]⟩, ⟨.insert, [0xC3, 0xA9, 10]⟩] [⟨0, 0, 0, 3, 0, 3⟩] := by
+  intro m hm i hi
+  simp only [List.mem_singleton] at hm
+  subst hm
+  have : i = ⟨1, 4, [0xC3, 0xA9, 10]⟩ := by
+    simp [insertions, insertionsFrom] at hi; exact hi.symm
+  subst this
+  exact ⟨Or.inl rfl, Or.inr (Or.inl (by simp))⟩
+
+/-- the move contract is needed: a target that starts inside a character yields the reporter's
+    gap range `[0, 1)` splitting "é" -/
+theorem witness_target_off_boundary :
+    update [⟨.delete, [97]⟩, ⟨.insert, [0xC3, 0xA9]⟩] [] [⟨0, 0, 0, 1, 1, 2⟩] [] ['r'] 2
+      = .ok [⟨0, 1, ['r'], 2⟩] ∧ isBoundary [0xC3, 0xA9] 1 = false := by decide
 
 /-! ## 2b. Conservative: unchanged text keeps its authors, new text is the reporter's -/
 
@@ -151,6 +200,43 @@ example : rangesForInsertion [] (insCount [⟨.equal, [97, 10]⟩]) = none ∧ h
 theorem witness_whitespace_inherits :
     update [⟨.equal, [97]⟩, ⟨.insert, [32]⟩, ⟨.equal, [98]⟩] [] [] [⟨0, 2, ['o'], 1⟩] ['r'] 2
       = .ok [⟨0, 3, ['o'], 1⟩] := by decide
+
+/-! ## 2c. Whitespace-only reformat -/
+
+/-- **C16 whitespace_reformat_keeps_lines (partial: the char-level core).**
+    FULL STATEMENT (not proved; checked on the real code by the oracle
+    `whitespace_reformat_keeps_lines` for reformats that neither join nor split lines): if every
+    Delete/Insert segment is whitespace-only, every new line containing an unchanged
+    non-whitespace byte has the dominant author of the old line containing its pre-image.
+    PROVED: in such a reformat (no move mappings) `transform` emits only non-empty ranges — no
+    deletion marker, which would be a line-attribution candidate regardless of content — and by
+    `unchanged_keeps_author` every unchanged byte, in particular every non-whitespace byte,
+    keeps exactly its (author, ts) set. The candidates with non-whitespace content on a line are
+    therefore the transformed priors; inserted whitespace only contributes candidates on blank
+    lines. The missing step is the comparison of `dominant` on the two line contents. -/
+theorem whitespace_reformat_keeps_lines_partial (segs : List Seg) (subst : List (Nat × Nat))
+    (old : List Attr) (author : Str) (ts : Nat) (raw : List Attr) (hws : WsReformat segs)
+    (h : transform segs subst [] (normalizeOld old) author ts = .ok raw) :
+    ∀ a ∈ raw, a.start < a.stop :=
+  transform_ws_nonempty segs subst _ author ts raw hws h
+
+/-- non-vacuity: re-indenting `  x` to `    x` (Delete "  ", Insert "    ") -/
+example : WsReformat [⟨.delete, [32, 32]⟩, ⟨.insert, [32, 32, 32, 32]⟩, ⟨.equal, [120]⟩] := by
+  intro g hg hne
+  simp only [List.mem_cons, List.mem_nil_iff, or_false] at hg
+  rcases hg with rfl | rfl | rfl
+  · decide
+  · decide
+  · exact absurd rfl hne
+
+/-- outside the partial statement: a reformat that splits a line between two authors' tokens
+    changes a line's dominant author (old line 1: latest is `b`; new line 1 holds only `a`'s token) -/
+theorem witness_reformat_split_line :
+    toLineAttrs [⟨0, 1, ['a'], 1⟩, ⟨2, 3, ['b'], 2⟩] [120, 32, 121, 10] = .ok [⟨1, 1, ['b'], none⟩] ∧
+    (match update [⟨.equal, [120]⟩, ⟨.delete, [32]⟩, ⟨.insert, [10]⟩, ⟨.equal, [121, 10]⟩] [] []
+        [⟨0, 1, ['a'], 1⟩, ⟨2, 3, ['b'], 2⟩] ['r'] 3 with
+     | .ok o => toLineAttrs o [120, 10, 121, 10]
+     | .error e => .error e) = .ok [⟨1, 1, ['a'], none⟩, ⟨2, 2, ['b'], none⟩] := by decide
 
 /-! ## 3. Line ↔ char round trip -/
 
@@ -252,6 +338,10 @@ theorem witness_identity_ts_tie :
 
 end GitAi.Tracker
 
+#print axioms GitAi.Tracker.on_boundaries
+#print axioms GitAi.Tracker.witness_target_off_boundary
+#print axioms GitAi.Tracker.whitespace_reformat_keeps_lines_partial
+#print axioms GitAi.Tracker.witness_reformat_split_line
 #print axioms GitAi.Tracker.unchanged_keeps_author_multiset
 #print axioms GitAi.Tracker.unchanged_keeps_author
 #print axioms GitAi.Tracker.witness_src_outside_deletion
